@@ -22,6 +22,9 @@ RENAMES = {
 INT_ASSOC = {'from_be_bytes', 'from_le_bytes', 'from_ne_bytes'}
 
 IMPL_ARG_NAMES = {'process_with_backend': 'SCL'}
+# alpha-renaming of a method-level generic parameter of a trait declaration to the name its impls use (this Verus
+# mis-encodes inherited contracts when the names differ): trait name -> {old: new}
+ALPHA = {'StreamCipherSeek': {'T': 'SN'}}
 
 DROP_ATTR_HEADS = ('inline', 'derive', 'allow', 'doc', 'must_use', 'cfg_attr')
 
@@ -204,9 +207,14 @@ def transform(toks, it, hoist_names=None, hoist_suffix=None, is_member=False, re
     out = res.toks
     hoist_names = hoist_names or {}
 
+    alpha = ALPHA.get(it.name, {}) if it.kind == 'trait' else (ALPHA.get(it.parent.name, {}) if it.parent is not None and it.parent.kind == 'trait' else {})
+
     def emit(t, text=None):
         if text is None and t.kind == 'ident' and t.text in hoist_names:
             text = hoist_names[t.text]
+        if text is None and t.kind == 'ident' and t.text in alpha:
+            text = alpha[t.text]
+            res.renamed['generic %s->%s' % (t.text, text)] = res.renamed.get('generic %s->%s' % (t.text, text), 0) + 1
         out.append(clone_tok(t, text))
 
     # attributes
@@ -432,6 +440,9 @@ def transform(toks, it, hoist_names=None, hoist_suffix=None, is_member=False, re
                 n.ws = strip_comments(first_ws)
             if t.kind == 'ident' and t.text in hoist_names:
                 n.text = hoist_names[t.text]
+            elif t.kind == 'ident' and t.text in alpha:
+                n.text = alpha[t.text]
+                res.renamed['generic %s->%s' % (t.text, n.text)] = res.renamed.get('generic %s->%s' % (t.text, n.text), 0) + 1
             out.append(n)
             if q == name_idx and moved:
                 has_generics = toks[q + 1].text == '<'
